@@ -136,6 +136,7 @@ class C20(Check):
         if n > b:
             out.nontrivial = True
         src_rows = dress_rows(case, rows)
+        rows_before = repr(src_rows)        # (the dump owns its batches, not the caller's rows: they are left as they were)
         if case.get('rowform', 'uniform') != 'uniform' and case['schema'] != 'single' and n >= 2:
             out.tags.append('rows-with-' + case['rowform'])
         schema = SCHEMAS[case['schema']]()
@@ -202,6 +203,9 @@ class C20(Check):
             return out.fail('file-not-readable-by-pyarrow', error=repr(e))
         if compare('pyarrow_reader', ref):
             return out
+        out.observed['source_rows_compared_after_the_dump'] += len(src_rows)
+        if repr(src_rows) != rows_before:
+            return out.fail('dump-changed-the-rows-it-was-given', before=rows_before[:300], after=repr(src_rows)[:300])
         for lb in case['load_batches']:
             if case['target'] == 'path':
                 g = subscribe2(call(P.load_from_file, [('filename', path), ('batch_size', lb)]), out, 'load_from_file', same=lambda x, y: repr(x) == repr(y), abuse=(lb == case['load_batches'][0]))
